@@ -3,6 +3,7 @@
 -/
 import GEVerif.Model.Sexp
 import GEVerif.Model.Linear
+import GEVerif.Model.Stack
 import GEVerif.Drive.Val
 
 namespace GEVerif.Drive.C07
@@ -26,7 +27,18 @@ def srcPos : AnySrc → Nat
   | .scripted s => s.pos
   | .gene s => s.index
 
+/-- programs built by the stack machine carry no synthesis context -/
+partial def valSxNoCtx : Val → Sexp
+  | .node c _ _ args => list ([atom "n", ofNat c, atom "noctx", atom "noctx"] ++ args.map valSxNoCtx)
+  | .list _ _ vs => list ([atom "l", atom "noctx", atom "noctx"] ++ vs.map valSxNoCtx)
+  | .tuple vs => list (atom "t" :: vs.map valSxNoCtx)
+  | v => valSx v
+
 def handle : List Sexp → Option Sexp
+  | [atom "map_stack", spec, order, limit, dna] => do
+      let g := analyse (← parseSpec spec)
+      let order ← (← order.asList?).mapM parseTy
+      pure (resSx valSxNoCtx (Stack.mapStack g order (← limit.asNat?) 200000 (← dna.asInts?)))
   | [atom "map_ge", spec, dec, dna] => do
       let g := analyse (← parseSpec spec)
       pure (resSx valSx (mapGE g (← parseDecider dec) bigFuel (← dna.asInts?) true))
